@@ -696,6 +696,23 @@ def gen_case(rng, tier, force=None):
             ops.append(["index_of", [gen_point(rng, cfg, pool) for _ in range(rng.randint(1, 4))]])
         else:
             ops.append(["retrieve_own", [rng.randrange(1000) for _ in range(rng.randint(1, 3))]])
+    # local competition: read the bounds (they get cached), then let a better, non-novel candidate REPLACE the entry that holds an
+    # extreme coordinate by a less extreme one, then read the bounds again (they must shrink)
+    if cfg["lc"] and pool and rng.random() < 0.5:
+        for _ in range(rng.choice([1, 2])):
+            j = rng.randrange(cfg["dim"])
+            sign = rng.choice([-1, 1])
+            ext = max(pool, key=lambda m: sign * m[j])
+            step = 0.125 if stream == "exact1d" else (0.5 if cfg.get("half") else 1.0)
+            inward = list(ext)
+            inward[j] = ext[j] - sign * step * rng.choice([1, 1, 2])
+            ops.append(["upper"])
+            ops.append(["lower"])
+            ops.append(["add_single", False, [next_id, rng.choice([64.0, 1e30, 1000.5]) + next_id, inward]])
+            next_id += 1
+            pool.append(inward)
+            ops.append([rng.choice(["upper", "lower"])])
+            ops.append([rng.choice(["upper", "lower"])])
     # make bound reads surround clears often (a cached value must not survive clear)
     if rng.random() < 0.5:
         out = []
